@@ -7,6 +7,7 @@ from typing import Dict, Optional, List
 from metasequoia_sql import core
 from metasequoia_sql.analyzer.base import AnalyzerRecursionASTToDictBase
 from metasequoia_sql.analyzer.node import StandardTable
+from metasequoia_sql.errors import AnalyzerError
 
 
 __all__ = ["CurrentLevelTableNameAnalyzer"]
@@ -20,6 +21,8 @@ class CurrentLevelTableNameAnalyzer(AnalyzerRecursionASTToDictBase):
 
     def get_standard_table(self, alias_name: Optional[str]) -> Optional[StandardTable]:
         """根据表别名，获取标准表名对象"""
+        if alias_name is not None and alias_name not in self._alias_name_to_standard_table_hash:
+            raise AnalyzerError(f"当前层级没有该表名或别名: {alias_name}")
         return self._alias_name_to_standard_table_hash[alias_name] if alias_name is not None else None
 
     def get_all_table_name(self) -> List[str]:
